@@ -91,6 +91,17 @@ theorem save_spec (st : RwZip) (nm : Name) (w : Bool) (c : Content) (hok : ModeO
         simp only [view, hb, read_upsert, true_and]
         by_cases h : n = nm <;> simp [h]
 
+theorem save_zf_nodup (st : RwZip) (t : Name × Bool) (c : Content) (h : (names st.zf).Nodup) :
+    (names (st.save t c).1.zf).Nodup := by
+  obtain ⟨nm, w⟩ := t
+  unfold RwZip.save
+  cases w with
+  | false => simpa using h
+  | true =>
+    cases hb : st.buf with
+    | none => simpa [hb] using names_upsert_nodup st.zf nm c h
+    | some b => simpa [hb] using h
+
 /-! ### one `add` -/
 
 theorem addOld_eq (s : ZipSaver) (ss : Sig) (nm : Name) (w : Bool)
@@ -105,7 +116,11 @@ theorem addOld_spec (s : ZipSaver) (ss : Sig) (hok : ModeOK s.st) :
       (∀ n, read s.st.zf n ≠ none → read (s.addOld ss).st.zf n ≠ none) ∧
       ((read s.st.zf (.sig m) = some (.sigs [ss]) ∧ ∀ n, view (s.addOld ss).st n = view s.st n) ∨
        (read s.st.zf (.sig m) = none ∧
-        ∀ n, view (s.addOld ss).st n = if n = .sig m then some (.sigs [ss]) else view s.st n)) := by
+        ∀ n, view (s.addOld ss).st n = if n = .sig m then some (.sigs [ss]) else view s.st n)) ∧
+      ((names s.st.zf).Nodup → (names (s.addOld ss).st.zf).Nodup) ∧
+      (∀ k, m.suffix = some k →
+        (∃ d, read s.st.zf (.sig ⟨ss.md5, none⟩) = some d ∧ d ≠ .sigs [ss]) ∧
+        ∀ j, j < k → ∃ d, read s.st.zf (.sig ⟨ss.md5, some j⟩) = some d ∧ d ≠ .sigs [ss]) := by
   have hspec := genName_spec s.st.zf ss.md5 (.sigs [ss])
   cases hgen : genName s.st.zf ss.md5 (.sigs [ss]) with
   | mk nm w =>
@@ -115,14 +130,19 @@ theorem addOld_spec (s : ZipSaver) (ss : Sig) (hok : ModeOK s.st) :
   subst hname
   obtain ⟨h1, h2, h3, h4, h5⟩ := save_spec s.st _ w (.sigs [ss]) hok htrue
   rw [addOld_eq s ss _ w hgen]
-  refine ⟨⟨ss.md5, sfx⟩, rfl, by simp only [h1], h4, h2, h3, ?_⟩
-  cases w with
-  | false =>
-    left
-    exact ⟨hfalse rfl, fun n => by simpa using h5 n⟩
-  | true =>
-    right
-    exact ⟨htrue rfl, fun n => by simpa using h5 n⟩
+  refine ⟨⟨ss.md5, sfx⟩, rfl, by simp only [h1], h4, h2, h3, ?_, fun hnd => save_zf_nodup s.st _ _ hnd, ?_⟩
+  · cases w with
+    | false =>
+      left
+      exact ⟨hfalse rfl, fun n => by simpa using h5 n⟩
+    | true =>
+      right
+      exact ⟨htrue rfl, fun n => by simpa using h5 n⟩
+  · intro k hk
+    simp only at hk
+    subst hk
+    exact genNameR_chain (read s.st.zf) (s.st.zf.length + 1) ss.md5 (.sigs [ss]) k
+      (by have := congrArg Prod.fst hgen; simpa [genName] using this)
 
 theorem add_eq (s : ZipSaver) (ss : Sig) (b : Zip) (nm : Name) (w : Bool) (hb : s.st.buf = some b)
     (h : genNameR (readBoth s.st.zf b) (s.st.zf.length + b.length + 1) ss.md5 (.sigs [ss]) = (nm, w)) :
@@ -138,17 +158,22 @@ theorem add_spec (s : ZipSaver) (ss : Sig) (hok : ModeOK s.st) :
       (∀ n, read s.st.zf n ≠ none → read (s.add ss).st.zf n ≠ none) ∧
       ((view s.st (.sig m) = some (.sigs [ss]) ∧ ∀ n, view (s.add ss).st n = view s.st n) ∨
        (view s.st (.sig m) = none ∧
-        ∀ n, view (s.add ss).st n = if n = .sig m then some (.sigs [ss]) else view s.st n)) := by
+        ∀ n, view (s.add ss).st n = if n = .sig m then some (.sigs [ss]) else view s.st n)) ∧
+      ((names s.st.zf).Nodup → (names (s.add ss).st.zf).Nodup) ∧
+      (∀ k, m.suffix = some k →
+        (∃ d, view s.st (.sig ⟨ss.md5, none⟩) = some d ∧ d ≠ .sigs [ss]) ∧
+        ∀ j, j < k → ∃ d, view s.st (.sig ⟨ss.md5, some j⟩) = some d ∧ d ≠ .sigs [ss]) := by
   cases hb : s.st.buf with
   | none =>
     -- writable zip: identical to the unpatched code
-    obtain ⟨m, h1, h2, h3, h4, h5, h6⟩ := addOld_spec s ss hok
+    obtain ⟨m, h1, h2, h3, h4, h5, h6, h7, h8⟩ := addOld_spec s ss hok
     have e : s.add ss = s.addOld ss := by
       simp [ZipSaver.add, ZipSaver.addOld, RwZip.saveSig, RwZip.saveSigOld, hb]
     have hv : ∀ n, view s.st n = read s.st.zf n := by intro n; simp [view, hb]
     rw [e]
-    refine ⟨m, h1, h2, h3, by simpa [hb] using h4, h5, ?_⟩
-    rw [hv]; exact h6
+    refine ⟨m, h1, h2, h3, by simpa [hb] using h4, h5, ?_, h7, ?_⟩
+    · rw [hv]; exact h6
+    · intro k hk; rw [hv, ]; simp only [hv]; exact h8 k hk
   | some b =>
     have hok' := hok
     unfold ModeOK at hok'
@@ -180,14 +205,21 @@ theorem add_spec (s : ZipSaver) (ss : Sig) (hok : ModeOK s.st) :
     obtain ⟨h1, h2, h3, h4, h5⟩ := save_spec s.st _ w (.sigs [ss]) hok hfree
     have e := add_eq s ss b _ w hb hgen
     rw [e]
-    refine ⟨⟨ss.md5, sfx⟩, rfl, by simp only [h1], h4, by simpa [hb] using h2, h3, ?_⟩
-    cases w with
-    | false =>
-      left
-      exact ⟨by rw [← hrb]; exact hfalse rfl, fun n => by simpa using h5 n⟩
-    | true =>
-      right
-      exact ⟨by rw [← hrb]; exact htrue rfl, fun n => by simpa using h5 n⟩
+    refine ⟨⟨ss.md5, sfx⟩, rfl, by simp only [h1], h4, by simpa [hb] using h2, h3, ?_,
+      fun hnd => save_zf_nodup s.st _ _ hnd, ?_⟩
+    · cases w with
+      | false =>
+        left
+        exact ⟨by rw [← hrb]; exact hfalse rfl, fun n => by simpa using h5 n⟩
+      | true =>
+        right
+        exact ⟨by rw [← hrb]; exact htrue rfl, fun n => by simpa using h5 n⟩
+    · intro k hk
+      simp only at hk
+      subst hk
+      have := genNameR_chain (readBoth s.st.zf b) (s.st.zf.length + b.length + 1) ss.md5 (.sigs [ss]) k
+        (by rw [hgen])
+      simpa only [hrb] using this
 
 /-! ### the invariant inside a session -/
 
@@ -249,7 +281,7 @@ theorem sinv_step_core (s s' : ZipSaver) (old new : Placed) (ss : Sig) (m : MNam
 theorem sinv_addOld (s : ZipSaver) (old new : Placed) (ss : Sig) (inv : SInv s old new)
     (hc : s.st.buf = none ∨ ∀ p ∈ new, p.2.md5 = ss.md5 → p.2 = ss) :
     ∃ m, SInv (s.addOld ss) old (new ++ [(m, ss)]) ∧ ((s.addOld ss).st.buf = none ↔ s.st.buf = none) := by
-  obtain ⟨m, hm, hrows, hmode, hbuf, hzf, hcase⟩ := addOld_spec s ss inv.mode
+  obtain ⟨m, hm, hrows, hmode, hbuf, hzf, hcase, _, _⟩ := addOld_spec s ss inv.mode
   refine ⟨m, sinv_step_core s (s.addOld ss) old new ss m inv hm hrows hmode hzf ?_, hbuf⟩
   rcases hcase with ⟨hr, hv⟩ | ⟨hr, hv⟩
   · exact Or.inl ⟨view_of_zf inv.mode hr, hv⟩
@@ -266,7 +298,7 @@ theorem sinv_addOld (s : ZipSaver) (old new : Placed) (ss : Sig) (inv : SInv s o
 
 theorem sinv_add (s : ZipSaver) (old new : Placed) (ss : Sig) (inv : SInv s old new) :
     ∃ m, SInv (s.add ss) old (new ++ [(m, ss)]) ∧ ((s.add ss).st.buf = none ↔ s.st.buf = none) := by
-  obtain ⟨m, hm, hrows, hmode, hbuf, hzf, hcase⟩ := add_spec s ss inv.mode
+  obtain ⟨m, hm, hrows, hmode, hbuf, hzf, hcase, _, _⟩ := add_spec s ss inv.mode
   refine ⟨m, sinv_step_core s (s.add ss) old new ss m inv hm hrows hmode hzf ?_, hbuf⟩
   rcases hcase with ⟨hr, hv⟩ | ⟨hr, hv⟩
   · exact Or.inl ⟨hr, hv⟩
